@@ -23,13 +23,13 @@ def run(ctx):
     prog, info = load_program("lib", "e57")
     ctx.configs["lib"] = info
     ctx.cfg = "lib"
-    xml_rules.namespace_rules(ctx, prog, "R1", "R2", "R3")
+    ctx.call(xml_rules.namespace_rules, prog, "R1", "R2", "R3")
     import simple_rules
-    simple_rules.lookup_by_position(ctx, prog, "R3")
-    xml_rules.no_positional_navigation(ctx, prog, "R4")
-    xml_rules.no_local_name_identity(ctx, prog, "R5")
-    xml_rules.prototype_order(ctx, prog, "R3")
-    xml_rules.inverse_maps(ctx, prog, "R3", "R3", "R3", only=("PointCloud",))
+    ctx.call(simple_rules.lookup_by_position, prog, "R3")
+    ctx.call(xml_rules.no_positional_navigation, prog, "R4")
+    ctx.call(xml_rules.no_local_name_identity, prog, "R5")
+    ctx.call(xml_rules.prototype_order, prog, "R3")
+    ctx.call(xml_rules.inverse_maps, prog, "R3", "R3", "R3", only=("PointCloud",))
     ctx.cfg = None
-    xml_rules.positional_controls(ctx, "R4")
-    xml_rules.local_name_controls(ctx, "R5")
+    ctx.call(xml_rules.positional_controls, "R4")
+    ctx.call(xml_rules.local_name_controls, "R5")
